@@ -3,7 +3,7 @@ import asyncio
 import shutil
 import tempfile
 
-from vf.api import Ob, sl, SLICE, concrete, fork_int, fork_bool
+from vf.api import Ob, sl, SLICE, concrete, fork_int, fork_bool, kf
 from vf import fx
 from vf.sim import Sim, LIVE
 
@@ -44,7 +44,8 @@ META = dict(
                'TaskPool.release_held_tasks', 'TaskPool.id_match',
                'get_connected_groups', 'Scheduler.release_tasks_to_run',
                'WorkflowDatabaseManager.remove_task_from_flows (real SQL)'],
-    bounds=['prefix: 0..4 completions, 2 order bits; z blocked or not',
+    bounds=['prefix: 6 stages (finished: none / a / z / a,z / a,z,b / all); z '
+            'never finishing (stages 0, 1)',
             '15 subsets of {a, z, b, c}; flow unset / new; held bit; paused '
             'bit; 3 order bits after the command'],
     stubs=['job preparation / submission / messages played by vf.sim.Sim',
@@ -59,6 +60,20 @@ CFG = fx.cfg('group')
 NAMES = ['a', 'z', 'b', 'c']
 PARENTS = {'a': [], 'z': [], 'b': ['a', 'z'], 'c': ['b']}
 FLOWS = [[], ['new']]
+# the jobs that have finished when the command arrives
+STAGES = [[], ['a'], ['z'], ['a', 'z'], ['a', 'z', 'b'],
+          ['a', 'z', 'b', 'c']]
+
+
+def connected(gset):
+    seen, todo = set(), [sorted(gset)[0]]
+    while todo:
+        n = todo.pop()
+        if n in seen:
+            continue
+        seen.add(n)
+        todo += [m for m in gset if m in PARENTS[n] or n in PARENTS[m]]
+    return seen == gset
 
 
 def command(sim, ids, flow):
@@ -72,25 +87,23 @@ def command(sim, ids, flow):
     asyncio.run(go())
 
 
-def _run(k, o1, o2, zblock, gmask, fi, hold, paused, p1, p2, p3):
+def _run(stage, zblock, gmask, fi, hold, paused, p1, p2, p3):
     d = tempfile.mkdtemp(prefix='cylc-verif-c28-')
     sim = Sim(CFG, d)
     try:
         sim.cold_start()
-        pre = iter([o1, o2])
-
         def pick(order, block):
             act = [t for t in sim.active()
                    if not (t.tdef.name in block)]
             if not act:
                 return None
             return act[next(order, 0) % len(act)]
-        for _ in range(k):
+        for name in STAGES[stage]:
             sim.loop()
-            t = pick(pre, {'z'} if zblock else ())
-            if t is None:
-                break
-            sim.finish(t)
+            t = [t for t in sim.active() if t.tdef.name == name]
+            if not t:
+                return False             # (harness: stage not reachable)
+            sim.finish(t[0])
         sim.loop()
         group = [n for i, n in enumerate(NAMES) if gmask >> i & 1]
         gset = set(group)
@@ -106,10 +119,15 @@ def _run(k, o1, o2, zblock, gmask, fi, hold, paused, p1, p2, p3):
         live = {m for m in start if status0.get(m) in LIVE}
         done_after = set()
         ok = [True]
+        # the flows the command triggers in: all active flows (here {1}), or
+        # new flows (numbers from 2: one per connected sub-group)
+        def triggered(flows):
+            return (1 in flows) if fi == 0 else any(f >= 2 for f in flows)
+        final_flows = {}         # (name, submit_num) -> flows when it finished
 
         def on_submit(t):
             name = t.tdef.name
-            if name in gset and name not in start:
+            if name in gset and name not in start and triggered(t.flow_nums):
                 if not all(p in done_after
                            for p in PARENTS[name] if p in gset):
                     ok[0] = False      # ran before an in-group parent
@@ -131,19 +149,37 @@ def _run(k, o1, o2, zblock, gmask, fi, hold, paused, p1, p2, p3):
                 if step >= 2:
                     break
                 continue
+            final_flows[(t.tdef.name, t.submit_num)] = frozenset(t.flow_nums)
             sim.finish(t)
             done_after.add(t.tdef.name)
         if not ok[0]:
             return False
         counts = {}
-        for s in sim.submitted[n0:]:
-            counts[s[0]] = counts.get(s[0], 0) + 1
-        for m in group:
-            if counts.get(m, 0) != (0 if m in live else 1):
-                return False
-        # nobody else runs twice after the command either
-        if any(c > 1 for c in counts.values()):
-            return False
+        after = [(s[0], s[2], s[3] | final_flows.get((s[0], s[2]), s[3]))
+                 for s in sim.submitted[n0:]]
+        for name, _sub, flows in after:
+            # (flows merge into a job that is already active: it counts)
+            if triggered(flows):
+                counts[name] = counts.get(name, 0) + 1
+        # (--flow=new on a group that is not connected starts one new flow
+        # per connected part, and the parts then feed each other's
+        # downstream tasks: per-member counts are only claimed for connected
+        # groups there)
+        if fi == 0 or connected(gset):
+            for m in group:
+                n = counts.get(m, 0)
+                if fi == 1 and m not in start and status0.get(m) in LIVE:
+                    # a job of another flow is already running: the new
+                    # flow merges into it when it arrives (flow merge)
+                    if n > 1:
+                        return False
+                elif n != (0 if m in live else 1):
+                    return False
+        # nobody runs twice in one flow after the command
+        for i, s1 in enumerate(after):
+            for s2 in after[i + 1:]:
+                if s1[0] == s2[0] and (s1[2] & s2[2]):
+                    return False
         # no job launched twice under one submit number
         keys = [s[:3] for s in sim.submitted]
         return len(keys) == len(set(keys))
@@ -152,38 +188,37 @@ def _run(k, o1, o2, zblock, gmask, fi, hold, paused, p1, p2, p3):
         shutil.rmtree(d, ignore_errors=True)
 
 
-def trigger(k: int, o1: int, o2: int, zblock: bool, gmask: int, fi: int,
-            hold: bool, paused: bool, p1: int, p2: int, p3: int) -> bool:
+def trigger(stage: int, zblock: bool, gmask: int, fi: int, hold: bool,
+            paused: bool, p1: int, p2: int, p3: int) -> bool:
     """
     pre: sl(gmask=gmask)
-    pre: 0 <= k <= 4 and 0 <= o1 <= 1 and 0 <= o2 <= 1 and 1 <= gmask <= 15
+    pre: 0 <= stage < 6 and 1 <= gmask <= 15
     pre: 0 <= fi <= 1 and 0 <= p1 <= 1 and 0 <= p2 <= 1 and 0 <= p3 <= 1
-    pre: k in SLICE.get('ks', (0, 1, 2, 3, 4))
-    pre: SLICE.get('post', True) or (p2 == 0 and p3 == 0 and o2 == 0)
+    pre: not zblock or stage <= 1
+    pre: SLICE.get('post', True) or (p2 == 0 and p3 == 0)
+    pre: not kf('C28.trigger', stage=stage, gmask=gmask, fi=fi)
     post: _
     """
-    k, o1, o2, gmask, fi = (fork_int(k, 0, 4), fork_int(o1, 0, 1),
-                            fork_int(o2, 0, 1), fork_int(gmask, 1, 15),
-                            fork_int(fi, 0, 1))
+    stage, gmask, fi = (fork_int(stage, 0, 5), fork_int(gmask, 1, 15),
+                        fork_int(fi, 0, 1))
     p1, p2, p3 = fork_int(p1, 0, 1), fork_int(p2, 0, 1), fork_int(p3, 0, 1)
     zblock, hold, paused = (fork_bool(zblock), fork_bool(hold),
                             fork_bool(paused))
     with concrete():
-        return _run(k, o1, o2, zblock, gmask, fi, hold, paused, p1, p2, p3)
+        return _run(stage, zblock, gmask, fi, hold, paused, p1, p2, p3)
 
 
 def OBLIGATIONS(tier):
     big = tier == 'thorough'
     t = 2400 if big else 170
     return [Ob(f'trigger[group={g}]', 'trigger', timeout=t, twin=(g == 1),
-               slice={'gmask': g, 'post': big,
-                      'ks': (0, 1, 2, 3, 4) if big else (0, 2, 4)})
+               slice={'gmask': g, 'post': big})
             for g in range(1, 16)]
 
 
 def VALIDATE():
     n = 0
-    assert _run(4, 0, 0, False, 0b0101, 0, False, False, 0, 0, 0)
-    assert _run(2, 1, 0, True, 0b0100, 0, True, True, 0, 1, 0)
-    assert _run(0, 0, 0, False, 0b1111, 1, False, True, 1, 0, 1)
+    assert _run(5, False, 0b0101, 0, False, False, 0, 0, 0)
+    assert _run(1, True, 0b0100, 0, True, True, 0, 1, 0)
+    assert _run(0, False, 0b1111, 1, False, True, 1, 0, 1)
     return n + 3
